@@ -2,6 +2,7 @@ import VOPyVerif.Proofs.GPWrap
 import VOPyVerif.Proofs.GPWrapAlg
 import VOPyVerif.Proofs.GPWrapBridge
 import VOPyVerif.Proofs.GPWrapPerm
+import VOPyVerif.Proofs.GPWrapJoint
 import Mathlib.Data.Rat.Star
 /-!
 # C15 — GP models return the exact posterior of exactly the data they hold
@@ -11,13 +12,26 @@ Property theorems only (helper lemmas: `Proofs/GPWrap*.lean`).  Three layers:
 1. **state machine** (`GPWrap.run / predict`, the definitions the driver executes): `predict` reads
    `conditioned`, `update` sets `conditioned := held`; hence predictions are a function of the
    samples held at the last update, of their multiset when the posterior is permutation invariant;
-   `clear; update` forgets; the train-and-freeze helpers' op sequence is up to date iff it ends with
-   an `update`;
+   `clear; update` forgets; the train-and-freeze helpers' op sequence is up to date (and the pre-fix
+   sequence iff it ends with an `update`);
 2. **algebra** over Mathlib matrices (`quad A k r = kᵀA⁻¹r`): permutation invariance, block-diagonal
    structure of the model list, non-negative and antitone posterior variance, prior for no data;
 3. **refinement**: whenever the executable exact posterior `GPWrap.posterior` (checked rational
    solve) answers, its answer *is* the closed form of layer 2; so layer 2 speaks about the numbers
-   the driver compares with `predict()`.
+   the driver compares with `predict()`;
+4. **executable consequences** for the three model classes (`postScalar`/`mlistPost`/`indepPost`,
+   `jointPost`/`corrPost`): closed forms on the data's own index types, invariance under any
+   permutation of the samples (all three classes, end to end with the state machine), locality of
+   the model list, prior for no data, variance `≥ 0`, variance antitone under `data ++ extra`
+   (per-objective classes), and the `(N, m)`/`(N, m, m)` shapes.
+
+Not proved (stated here once): that the untrusted Bareiss solve always *answers* for a non-singular
+system (all executable theorems are conditional on `= some q`; the driver reports `X` otherwise and
+the harness treats that as an infrastructure error, never as agreement); the antitone statement for
+the *joint* executable posterior (proved for every positive-definite system in layer 2, and for the
+per-objective executable posterior); the executable identity "joint = per objective" for the
+independent model with scalar noise (layer 2: `modellist_block_diagonal`; the harness compares the
+two Lean computations exactly on small cases).
 -/
 namespace VOPy.C15
 open VOPy VOPy.GPWrap VOPy.GPWrap.Alg Matrix
@@ -106,42 +120,46 @@ theorem upToDate_of_ends_with_update [DecidableEq D] (S : Store D B) (s : State 
     (ops : List (Op B)) : upToDate (run S s (ops ++ [.update])) = true :=
   upToDate_snoc_update S s ops
 
-/-- **Train-and-freeze helpers (D3c).**  The op sequence the helpers perform — add the training
-set, update, clear, and, only if `initial_sample_cnt > 0`, add the initial samples and update —
-returns an up-to-date model iff it ends with an `update`, provided the training set is not empty.
-With `initial_sample_cnt = 0` the returned model reports no data but is conditioned on the whole
-training set. -/
-theorem helperOps_upToDate_iff_ends_with_update [DecidableEq D] (S : Store D B) (train : List B)
-    (initial : Option B) (hne : train.foldl S.add S.empty ≠ S.empty) :
-    upToDate (run S (init S) (helperOps train initial)) = true ↔
-      (helperOps train initial).getLast? = some .update := by
+/-- **Train-and-freeze helpers.**  The op sequence the helpers perform — add the training set,
+update, clear, add the initial samples if any, update — always returns an up-to-date model
+(`conditioned = held`): the model predicts from exactly the initial samples it reports (its prior
+when there are none). -/
+theorem helperOps_upToDate [DecidableEq D] (S : Store D B) (train : List B)
+    (initial : Option B) : upToDate (run S (init S) (helperOps train initial)) = true := by
+  unfold helperOps
+  exact upToDate_snoc_update S (init S) _
+
+/-- **The regression the check `helper-stale-after-clear` guards (D3c).**  If the final `update()`
+is performed only when `initial_sample_cnt > 0` (the helpers before the fix), the returned model
+is up to date iff the sequence ends with an `update`, provided the training set is not empty: with
+`initial_sample_cnt = 0` it reports no data but is conditioned on the whole training set. -/
+theorem helperOpsConditional_upToDate_iff_ends_with_update [DecidableEq D] (S : Store D B)
+    (train : List B) (initial : Option B) (hne : train.foldl S.add S.empty ≠ S.empty) :
+    upToDate (run S (init S) (helperOpsConditional train initial)) = true ↔
+      (helperOpsConditional train initial).getLast? = some .update := by
   cases initial with
   | none =>
-    rw [run_helperOps_none]
-    have hl : (helperOps train (none : Option B)).getLast? = some .clear := by
-      simp [helperOps]
+    rw [run_helperOpsConditional_none]
+    have hl : (helperOpsConditional train (none : Option B)).getLast? = some .clear := by
+      simp [helperOpsConditional]
     rw [hl]
     simp [upToDate, hne]
   | some b =>
-    have h : helperOps train (some b) = (train.map .add ++ [.update, .clear, .add b]) ++ [.update] := by
-      simp [helperOps]
+    have h : helperOpsConditional train (some b) =
+        (train.map .add ++ [.update, .clear, .add b]) ++ [.update] := by
+      simp [helperOpsConditional]
     constructor
     · intro _
       rw [h]; simp
     · intro _
       rw [h]; exact upToDate_snoc_update S (init S) _
 
-/-- the state the helpers return for `initial_sample_cnt = 0`: nothing held, everything the
-hyper-parameters were trained on still conditioned on -/
-theorem helperOps_zero_initial_state (S : Store D B) (train : List B) :
-    run S (init S) (helperOps train none) = ⟨S.empty, train.foldl S.add S.empty, true⟩ :=
-  run_helperOps_none S train
-
-/-- the repaired helper (`update()` unconditionally after `clear_data()`) is always up to date -/
-theorem helperOpsFixed_upToDate [DecidableEq D] (S : Store D B) (train : List B)
-    (initial : Option B) : upToDate (run S (init S) (helperOpsFixed train initial)) = true := by
-  unfold helperOpsFixed
-  exact upToDate_snoc_update S (init S) _
+/-- the state the pre-fix sequence returns for `initial_sample_cnt = 0`: nothing held, everything
+the hyper-parameters were trained on still conditioned on -/
+theorem helperOpsConditional_zero_initial_state (S : Store D B) (train : List B) :
+    run S (init S) (helperOpsConditional train none) =
+      ⟨S.empty, train.foldl S.add S.empty, true⟩ :=
+  run_helperOpsConditional_none S train
 
 /-- **Model list: an observation of objective `j` changes only objective `j`.**  Integer routing
 touches list `j` only; list routing appends to every objective exactly the rows carrying its index,
@@ -352,6 +370,65 @@ theorem indep_wrapper_predictions_depend_only_on_multiset (cfg : Cfg) (s : ℚ)
   simp only [predict, a.1, a.2, b.1, b.2, ↓reduceIte, Option.some.injEq] at hq hq'
   exact indepPost_perm cfg s hs _ _ p q q' hperm hq hq' hdet
 
+/-- **Closed form of the joint executable posterior** (correlated model; independent model with a
+noise matrix), over the index type (sample position × task): system matrix
+`AJ = K_joint + I_N ⊗ Σ`, `mean_j = k_jᵀ AJ⁻¹ y`, `cov_ij = k(p,i;p,j) − k_iᵀ AJ⁻¹ k_j`. -/
+theorem jointPost_closed_form (m : Nat) (kfun : Nat → Nat → Nat → Nat → Option ℚ) (Sg : Mat)
+    (data : List (Nat × Vec)) (p : Nat) (q : Post)
+    (h : jointPost m kfun Sg data p = some q) (hdet : IsUnit (AJ m kfun Sg data).det) :
+    (∀ j : Fin m, q.mean.getD j 0 = quad (AJ m kfun Sg data) (kJ m kfun data p j) (yJ m data)) ∧
+    (∀ i j : Fin m, (q.cov.getD i []).getD j 0 = (kfun p i p j).getD 0 -
+      quad (AJ m kfun Sg data) (kJ m kfun data p i) (kJ m kfun data p j)) :=
+  jointPost_spec m kfun Sg data p q h hdet
+
+/-- **Correlated model, executable: predictions depend only on the multiset of samples** (mean and
+the full `m × m` covariance at every test point). -/
+theorem corrPost_multiset_invariant (cfg : Cfg) (Sg : Mat) (hSg : cfg.taskNoise = some Sg)
+    (data data' : List (Nat × Vec)) (p : Nat) (q q' : Post) (hperm : data.Perm data')
+    (h : corrPost cfg data p = some q) (h' : corrPost cfg data' p = some q')
+    (hdet : IsUnit (AJ cfg.m (corrK cfg) Sg data').det) : q.mean = q'.mean ∧ q.cov = q'.cov :=
+  corrPost_perm cfg Sg hSg data data' p q q' hperm h h' hdet
+
+/-- **Independent model with a full noise matrix, executable** (gpytorch conditions jointly):
+predictions depend only on the multiset of samples. -/
+theorem indepPost_matrix_noise_multiset_invariant (cfg : Cfg) (Sg : Mat)
+    (hs : cfg.scalarNoise = none) (hSg : cfg.taskNoise = some Sg)
+    (data data' : List (Nat × Vec)) (p : Nat) (q q' : Post) (hperm : data.Perm data')
+    (h : indepPost cfg data p = some q) (h' : indepPost cfg data' p = some q')
+    (hdet : IsUnit (AJ cfg.m (indepK cfg) Sg data').det) : q.mean = q'.mean ∧ q.cov = q'.cov := by
+  unfold indepPost at h h'
+  simp only [hs] at h h'
+  exact indepJoint_perm cfg Sg hSg data data' p q q' hperm h h' hdet
+
+/-- **End to end, correlated model.**  Two histories of the multi-output wrapper, each split at
+its last update: if the rows held at those updates are permutations of one another, the executable
+predictions of the correlated model coincide. -/
+theorem corr_wrapper_predictions_depend_only_on_multiset (cfg : Cfg) (Sg : Mat)
+    (hSg : cfg.taskNoise = some Sg) (p : Nat) (s₁ s₂ : State (List (Nat × Vec)))
+    (pre₁ tail₁ pre₂ tail₂ : List (Op (List (Nat × Vec))))
+    (h₁ : ∀ o ∈ tail₁, o.isUpdate = false) (h₂ : ∀ o ∈ tail₂, o.isUpdate = false)
+    (hperm : (run (moStore _) s₁ pre₁).held.Perm (run (moStore _) s₂ pre₂).held)
+    (q q' : Post)
+    (hq : predict (fun d => corrPost cfg d p) (run (moStore _) s₁ (pre₁ ++ .update :: tail₁)) =
+      some (some q))
+    (hq' : predict (fun d => corrPost cfg d p) (run (moStore _) s₂ (pre₂ ++ .update :: tail₂)) =
+      some (some q'))
+    (hdet : IsUnit (AJ cfg.m (corrK cfg) Sg (run (moStore _) s₂ pre₂).held).det) :
+    q.mean = q'.mean ∧ q.cov = q'.cov := by
+  have a := run_last_update (moStore _) s₁ pre₁ tail₁ h₁
+  have b := run_last_update (moStore _) s₂ pre₂ tail₂ h₂
+  simp only [predict, a.1, a.2, b.1, b.2, ↓reduceIte, Option.some.injEq] at hq hq'
+  exact corrPost_perm cfg Sg hSg _ _ p q q' hperm hq hq' hdet
+
+/-- **Variance ≥ 0, joint executable posterior.**  If the prior Gram is positive semidefinite on
+the training and test outputs involved and the noise part `I_N ⊗ Σ` is positive definite, every
+predicted variance of the correlated model (independent model with a noise matrix) is `≥ 0`. -/
+theorem jointPost_variance_nonneg (m : Nat) (kfun : Nat → Nat → Nat → Nat → Option ℚ) (Sg : Mat)
+    (data : List (Nat × Vec)) (p : Nat) (q : Post)
+    (h : jointPost m kfun Sg data p = some q) (hG : (jointGramJ m kfun data p).PosSemidef)
+    (hN : (NJ m Sg data).PosDef) : ∀ i : Fin m, 0 ≤ (q.cov.getD i []).getD i 0 :=
+  jointPost_var_nonneg m kfun Sg data p q h hG hN
+
 /-- **Shapes of `predict`.**  For each of the three model classes every executable prediction at a
 test point has a mean of length `m` and an `m × m` covariance; predicting at `N` test points gives
 `N` of them — the `(N, m)` and `(N, m, m)` arrays, for every `N` including `N = 1`. -/
@@ -398,6 +475,17 @@ theorem postScalar_variance_antitone (T : Mat) (s c : ℚ) (data extra : List (N
 
 /-! ## non-vacuity -/
 
+/-- the correlated model on a 2-task, 2-point joint table (index `pid·2 + task`), two samples in
+either order, test point 2: both orders answer, with the same mean and 2×2 covariance -/
+example :
+    let G : Mat := [[2, 1, 1, 1/2, 1/2, 1/4], [1, 2, 1/2, 1, 1/4, 1/2], [1, 1/2, 2, 1, 1, 1/2],
+      [1/2, 1, 1, 2, 1/2, 1], [1/2, 1/4, 1, 1/2, 2, 1], [1/4, 1/2, 1/2, 1, 1, 2]]
+    let cfg : Cfg := { m := 2, noise := [[1/4, 1/8], [1/8, 1/2]], consts := [0, 0], tables := [G] }
+    (corrPost cfg [(0, [1, 2]), (1, [0, -1])] 2).map (fun q => (q.mean, q.cov)) =
+      (corrPost cfg [(1, [0, -1]), (0, [1, 2])] 2).map (fun q => (q.mean, q.cov)) ∧
+    (corrPost cfg [(0, [1, 2]), (1, [0, -1])] 2).isSome = true := by
+  decide +kernel
+
 /-- a 2×2 kernel table, two samples at points 0 and 1 in either order, test point 2: both orders
 answer, with the same numbers -/
 example :
@@ -408,12 +496,15 @@ example :
   decide +kernel
 
 
-/-- the helpers' sequence on concrete data: stale with 0 initial samples, fine with ≥ 1, and the
-repaired sequence fine in both cases -/
-example : upToDate (run (moStore Nat) (init (moStore Nat)) (helperOps [[1, 2, 3]] none)) = false ∧
-    upToDate (run (moStore Nat) (init (moStore Nat)) (helperOps [[1, 2, 3]] (some [2]))) = true ∧
-    upToDate (run (moStore Nat) (init (moStore Nat)) (helperOpsFixed [[1, 2, 3]] none)) = true ∧
-    (run (moStore Nat) (init (moStore Nat)) (helperOps [[1, 2, 3]] none)).conditioned = [1, 2, 3] := by
+/-- the pre-fix sequence on concrete data: stale with 0 initial samples, fine with ≥ 1; the
+helpers' sequence fine in both cases -/
+example :
+    upToDate (run (moStore Nat) (init (moStore Nat)) (helperOpsConditional [[1, 2, 3]] none)) = false ∧
+    upToDate (run (moStore Nat) (init (moStore Nat)) (helperOpsConditional [[1, 2, 3]] (some [2]))) = true ∧
+    upToDate (run (moStore Nat) (init (moStore Nat)) (helperOps [[1, 2, 3]] none)) = true ∧
+    (run (moStore Nat) (init (moStore Nat)) (helperOps [[1, 2, 3]] none)).conditioned = [] ∧
+    (run (moStore Nat) (init (moStore Nat)) (helperOpsConditional [[1, 2, 3]] none)).conditioned =
+      [1, 2, 3] := by
   decide
 
 /-- list routing of the model list: rows go to the objective they name, order kept -/
